@@ -256,8 +256,20 @@ def impl_serialise(doc, opts, named: bool = False) -> str:
         return kv.serialise(**opts)
 
 
+# ------------------------------------------------------------------------------------------------ parallel model evaluation
+def eval_jobs(ck: Ck, jobs: list) -> list:
+    """Evaluate [(name, expr)] with ck.coq_eval in parallel coqc processes (distinct scratch names); the order of the
+    results is the order of the jobs, so nothing depends on timing."""
+    from concurrent.futures import ThreadPoolExecutor
+    if not jobs:
+        return []
+    with ThreadPoolExecutor(max_workers=min(8, len(jobs))) as ex:
+        futs = [ex.submit(ck.coq_eval, IMPORTS, [expr], f'{name}_{k}', 900, PRE) for k, (name, expr) in enumerate(jobs)]
+        return [f.result() for f in futs]
+
+
 # ------------------------------------------------------------------------------------------------ correspondence: serialise
-def corr_serialise(ck: Ck) -> None:
+def corr_serialise(ck: Ck):
     n = ck.budget(400, 2000)
     cases = []
     for i in range(n):
@@ -276,21 +288,28 @@ def corr_serialise(ck: Ck) -> None:
         if special and nodes >= 1:
             ck.seen(('ser', repr(doc), repr(opts), named))
     ck.sample({'serialise_case': {'doc': cases[0][0], 'opts': cases[0][1], 'impl_text': cases[0][3]}})
-    bad: list[int] = []
+    jobs, parts = [], []
     for named in (False, True):
         sub = [(k, c) for k, c in enumerate(cases) if c[2] == named]
-        for lo in range(0, len(sub), 250):
-            part = sub[lo:lo + 250]
+        for lo in range(0, len(sub), 100):
+            part = sub[lo:lo + 100]
             lit = coq_list(
                 f'((({coq_chars(o["indent"])}, {coq_bool(o["indent_braces"])}, {coq_chars(o["start_indent"])}), '
                 f'{coq_tree(d[0]) if named else coq_doc(d)}), {coq_chars(t)})' for _, (d, o, _n, t) in part)
             fn = 'ser_node_case' if named else 'ser_case'
-            vals = ck.coq_eval(IMPORTS, [f'bad_idx {fn} 0 {lit}'], name='ser', preamble=PRE)
-            if vals is None:
-                ck.obligation('correspondence:serialise', False, 'model could not be evaluated')
-                ck.tie_broken.append('correspondence serialise: model evaluation failed')
-                return
-            bad += [part[i][0] for i in parse_coq_N_list(vals[0])]
+            jobs.append(('ser', f'bad_idx {fn} 0 {lit}'))
+            parts.append(part)
+    return jobs, lambda results: finish_serialise(ck, cases, parts, results)
+
+
+def finish_serialise(ck: Ck, cases, parts, results) -> None:
+    bad: list[int] = []
+    for part, vals in zip(parts, results):
+        if vals is None:
+            ck.obligation('correspondence:serialise', False, 'model could not be evaluated')
+            ck.tie_broken.append('correspondence serialise: model evaluation failed')
+            return
+        bad += [part[i][0] for i in parse_coq_N_list(vals[0])]
     ck.obligation('correspondence:serialise', not bad,
                   f'{len(cases)} trees x options, template interpreter (vm_compute) vs Keyvalues.serialise, exact text: '
                   f'{len(bad)} disagreements')
@@ -354,7 +373,7 @@ def gen_parse_text(rng: random.Random) -> tuple[str, str]:
     return 'soup', ''.join(rng.choice(SOUP) for _ in range(rng.choice([2, 4, 8, 16, 30])))
 
 
-def corr_parse(ck: Ck) -> None:
+def corr_parse(ck: Ck):
     n = ck.budget(1500, 6000)
     cases = []
     for i in range(n):
@@ -385,14 +404,14 @@ def corr_parse(ck: Ck) -> None:
             ck.seen(('parse', text, bits))
     ck.sample({'parse_case': {'text': cases[2 * len(CORPUS_TEXT)][0], 'impl': cases[2 * len(CORPUS_TEXT)][2],
                               'options': bits_opts(cases[2 * len(CORPUS_TEXT)][3])}})
-    bad: list[int] = []
+    jobs, parts = [], []
     chunk: list[int] = []
     size = 0
 
     def flush():
         nonlocal chunk, size
         if not chunk:
-            return True
+            return
         def want(r):
             if r[0] == 'ok':
                 return f'inl (inl {coq_doc(r[1])})'
@@ -403,22 +422,26 @@ def corr_parse(ck: Ck) -> None:
             f'((({coq_chars(cases[k][0])}, {cases[k][3]}), '
             f'[{"; ".join(f"({coq_chars(f)}, {coq_bool(v)})" for f, v in cases[k][1].items())}]), {want(cases[k][2])})'
             for k in chunk)
-        vals = ck.coq_eval(IMPORTS, [f'bad_idx parse_case 0 {lit}'], name='parse', preamble=PRE)
-        if vals is None:
-            ck.obligation('correspondence:parse', False, 'model could not be evaluated')
-            ck.tie_broken.append('correspondence parse: model evaluation failed')
-            return False
-        bad.extend(chunk[i] for i in parse_coq_N_list(vals[0]))
+        jobs.append(('parse', f'bad_idx parse_case 0 {lit}'))
+        parts.append(chunk)
         chunk, size = [], 0
-        return True
     for k, c in enumerate(cases):
         chunk.append(k)
         size += len(c[0]) + 20
-        if len(chunk) >= 400 or size > 60000:
-            if not flush():
-                return
-    if not flush():
-        return
+        if len(chunk) >= 150 or size > 20000:
+            flush()
+    flush()
+    return jobs, lambda results: finish_parse(ck, cases, parts, results)
+
+
+def finish_parse(ck: Ck, cases, parts, results) -> None:
+    bad: list[int] = []
+    for part, vals in zip(parts, results):
+        if vals is None:
+            ck.obligation('correspondence:parse', False, 'model could not be evaluated')
+            ck.tie_broken.append('correspondence parse: model evaluation failed')
+            return
+        bad.extend(part[i] for i in parse_coq_N_list(vals[0]))
     ck.obligation('correspondence:parse', not bad,
                   f'{len(cases)} texts, tokenizer+parser model (vm_compute) vs Keyvalues.parse, tree or error kind: '
                   f'{len(bad)} disagreements')
@@ -814,8 +837,14 @@ def run(ck: Ck) -> None:
         if not all(inst.values()):
             ck.tie_broken.append('instance obligations over Gen/KVSer_gen.v: ' + ', '.join(k for k, v in inst.items() if not v))
         tie_tables(ck, side)
-        corr_serialise(ck)
-        corr_parse(ck)
+        # the correspondences: cases are generated sequentially (ck.rng), the model is evaluated on all chunks in
+        # parallel coqc processes, results are consumed in order
+        pending = [corr_serialise(ck), corr_parse(ck)]
+        results = eval_jobs(ck, [j for jobs, _ in pending for j in jobs])
+        at = 0
+        for jobs, fin in pending:
+            fin(results[at:at + len(jobs)])
+            at += len(jobs)
     search(ck)
     keys = {v['key'] for v in ck.violations}
     # A failed obligation is explained by a concrete failing input on the same path:
